@@ -115,7 +115,7 @@ def apply_call(world, c):
     if k == "clear_log":
         return call(lambda: opt.clear_log())
     if k == "set_knob":
-        return call(lambda: world.knobs.__setitem__(world.names[c[1]], float(c[2])))
+        return call(lambda: world.kcont[c[1]].__setitem__(world.names[c[1]], float(c[2])))
     raise AssertionError(c)
 
 
@@ -218,6 +218,16 @@ def check_reproducible(world, prop, where, exclude_rows=()):
                              % (w2, pen, tf, p2))
         checked += 1
     return checked
+
+
+def check_row_flags(world, prop, where, n0, during_v, during_t):
+    """every row logged by a step()/solve() call records the active flags that were in force during that call"""
+    log = world.raw_log()
+    for r in range(n0, len(log["penalty"])):
+        vf, tf = flags_from_string(log["vary_active"][r]), flags_from_string(log["target_active"][r])
+        if vf != list(during_v) or tf != list(during_t):
+            raise OViolation(prop + ".row_flags", "%s: log row %d records active knobs/targets %s/%s, but %s/%s were switched on during this call"
+                             % (where, r, vf, tf, list(during_v), list(during_t)))
 
 
 def check_take_best(world, prop, where, n0, kw):
@@ -375,9 +385,9 @@ class C09:
 # ---------------------------------------------------------------------------------------
 # histories for C10 / C15
 # ---------------------------------------------------------------------------------------
-def gen_history(ctx, run, prop, kinds, fault_p):
+def gen_history(ctx, run, prop, kinds, fault_p, **over):
     r = rng_for(ctx.seed, prop, run, "problem")
-    spec = gen_problem(r, ctx.tier)
+    spec = gen_problem(r, ctx.tier, **over)
     rc = rng_for(ctx.seed, prop, run, "calls")
     n = rc.randint(2, 10) if ctx.tier == "quick" else rc.randint(2, 25)
     calls = [gen_call(rc, spec, kinds) for _ in range(n)]
@@ -401,7 +411,7 @@ class C10:
 
     @staticmethod
     def generate(ctx, run):
-        case = gen_history(ctx, run, "C10", C10.KINDS, 0.3)
+        case = gen_history(ctx, run, "C10", C10.KINDS, 0.3, start_inside=True)
         case["faults"] = [f for f in case["faults"] if f[1] == "failed"]
         spec = case["spec"]
         r = rng_for(ctx.seed, "C10", run, "bias")
@@ -490,6 +500,8 @@ class C10:
                     check_limits(w, prop, where, n0, containers=(exc is None and not dirty))
                 if c[0] in ("step", "solve"):
                     steps_checked += check_max_step(w, prop, where, n0 + 1)
+                    if exc is None:
+                        check_row_flags(w, prop, where, n0, during_v, during_t)
                     # ---- knobs disabled for this call keep their value (in every row of the call and at the end)
                     log = w.raw_log()
                     for j, act in enumerate(during_v):
@@ -586,6 +598,8 @@ class C15:
                 fl = [f for f in case["faults"] if f[0] == i]
                 if fl:
                     w.arm(raises=[f[2] for f in fl if f[1] == "raise"], fails=[f[2] for f in fl if f[1] == "failed"])
+                kb = w.knob_values()
+                dv, dt = call_flags(w, c[1]) if c[0] == "step" else (w.vary_flags(), w.target_flags())
                 val, exc = apply_call(w, c)
                 w.disarm()
                 fired = bool(w.fired)
@@ -603,6 +617,22 @@ class C15:
                     n0 = 0
                 if fired:
                     tainted.update(range(n0, n1))
+                if c[0] in ("step", "solve") and exc is None and not fired:
+                    check_row_flags(w, prop, where, n0, dv, dt)
+                if c[0] in ("step", "solve") and exc is None and c[1].get("take_best", True) and not fired:
+                    # independent of the log: the call must not end at a higher penalty than where it started (with the
+                    # flags of this call), unless it ends within tolerance
+                    cur = w.knob_values()
+                    lim_ok = True
+                    if not spec["opts"].get("check_limits", True):
+                        # without limit checks the starting point may lie outside the limits and is clipped first
+                        lim_ok = all(l is None or l[0] <= v <= l[1] for l, v in zip(spec["limits"], kb))
+                    if lim_ok and not all(w.within_tol(cur, dt)):
+                        p0, p1 = w.penalty(kb, dt), w.penalty(cur, dt)
+                        if p1 > p0 * (1 + 1e-9) + 1e-300:
+                            raise OViolation(prop + ".ends_worse", "%s: the call started at penalty %r (knobs %s) and ended at %r (knobs %s), "
+                                             "not within tolerance" % (where, p0, kb, p1, cur))
+                        count("start_end_penalty_checks")
                 if c[0] == "step" and exc is None and c[1].get("take_best", True) and not fired:
                     r = check_take_best(w, prop, where, n0, c[1])
                     if r:
